@@ -523,6 +523,56 @@ theorem dekker_bit_exact_f64 (lib : Libm) (x y : Nat) (sx sy : Bool) (mx my : Na
   intro r kx ky ex ey x y hx hy hr h1 h2 h3 h4 h5 h6 h7
   exact ((dekker_generated r kx ky ex ey x y hx hy).2.2 (qf binary64 (by decide)) rfl hr h1 h2 h3 h4 h5 h6 h7).1
 
+/-- kinds of the nodes of the default-option Dekker program: the six tests are boolean, the rest floats -/
+def dekkerScaleKinds : List Bool :=
+  [false, false, false, false, false, true, false, true, false, false, false, true, false, false, false, false, false,
+   false, false, false, false, false, false, false, true, true, false, true, false, false, false, false, false, false,
+   false, false, false, false, false, false, false, false, false, false, false, false, false]
+
+/-- **`mul_dekker(x, y)` with its DEFAULT options on BIT PATTERNS (float32).**  For all operand patterns that decode
+to normal numbers m·2^e with |value| ≤ x_max (3.40199e38), e ≥ emin + 12 and ex + ey ≥ emin, whenever the run is
+defined and none of its float-valued nodes is non-finite: value(h) = RNE(x·y) and value(h) + value(l) = x·y exactly. -/
+theorem dekker_default_bit_exact_f32 (lib : Libm) (x y : Nat) (sx sy : Bool) (mx my : Nat) (ex ey : Int)
+    (dx : decode binary32 x = .fin sx mx ex) (dy : decode binary32 y = .fin sy my ey)
+    (nx : 2 ^ 23 ≤ mx) (ny : 2 ^ 23 ≤ my) (hex : binary32.emin + 12 ≤ ex) (hey : binary32.emin + 12 ≤ ey) (hund : binary32.emin ≤ ex + ey)
+    (Xm : ℚ) (hXm : (decode binary32 2139090944).toRat? = some Xm) (hxm : |valQ sx mx ex| ≤ Xm) (hym : |valQ sy my ey| ≤ Xm)
+    (env : Array Nat) (he : evalNodes binary32 lib [x, y] mul_dekker_scale_f32.nodes #[] = some env)
+    (hfin : ∀ (i : Nat) (v : Nat), env[i]? = some v → dekkerScaleKinds[i]? = some false → isFiniteBits binary32 v = true)
+    (h l : Nat) (ho : mul_dekker_scale_f32.eval lib [x, y] = some [h, l]) :
+    ∃ qh ql : ℚ, toQ binary32 h = some qh ∧ toQ binary32 l = some ql ∧
+      qh = rne (qf binary32 (by decide)) (valQ sx mx ex * valQ sy my ey) ∧ qh + ql = valQ sx mx ex * valQ sy my ey := by
+  have hf : WF binary32 := ⟨by decide, by decide⟩
+  have hfm : mul_dekker_scale_f32.fmt = binary32 := by decide
+  have hk : kindsOf mul_dekker_scale_f32.nodes [] = some dekkerScaleKinds := by decide +kernel
+  have hko : ∀ o ∈ mul_dekker_scale_f32.outs, dekkerScaleKinds[o]? = some false := by decide
+  obtain ⟨bx1, bx2⟩ := decode_bounds binary32 hf x sx mx ex dx
+  obtain ⟨by1, by2⟩ := decode_bounds binary32 hf y sy my ey dy
+  have hins := insRel2 (finite_of_decode _ _ _ _ _ dx) (finite_of_decode _ _ _ _ _ dy) (toQ_fin _ x sx mx ex dx) (toQ_fin _ y sy my ey dy)
+  have habs : ∀ (s : Bool) (m : Nat), |(if s then -(m : ℤ) else (m : ℤ))| = (m : ℤ) := by
+    intro s m; cases s <;> simp
+  obtain ⟨-, ⟨t1, t2⟩, -, -, c32, -⟩ := ties_split_scaled
+  obtain ⟨-, ⟨u1, u2⟩, -⟩ := ties_dekker_scaled
+  obtain ⟨-, cC, -⟩ := split_constants
+  have ci : (decode binary32 964689920).toRat? = some (1 / 2 ^ 12) := by have := congrArg (·.1) c32; simpa using this
+  have cN : (decode binary32 1166016512).toRat? = some (2 ^ 12) := by have := congrArg (·.2.1) c32; simpa using this
+  have c1 : (decode binary32 1065353216).toRat? = some 1 := by have := congrArg (·.2.2) c32; simpa using this
+  have c0 : (decode binary32 0).toRat? = some 0 := by decide +kernel
+  have hq : mul_dekker_scale_f32.evalQ (rne (qf binary32 hf.hp)) [valQ sx mx ex, valQ sy my ey] =
+      some [rne (qf binary32 hf.hp) (valQ sx mx ex * valQ sy my ey), valQ sx mx ex * valQ sy my ey - rne (qf binary32 hf.hp) (valQ sx mx ex * valQ sy my ey)] := by
+    unfold Prog.evalQ
+    rw [u1, u2, hfm]
+    exact dekker_product_scaled (qf binary32 hf.hp) _ (isRN_rne _) binary32 _ _ _ _ _ _ 12 12 Xm cC hXm c0 c1 ci cN
+      (by show 24 ≤ 2 * 12; norm_num) (by show 2 * 12 ≤ 24 + 2; norm_num) (by show 12 + 2 ≤ 24; norm_num)
+      (if sx then -(mx : ℤ) else mx) (if sy then -(my : ℤ) else my) ex ey
+      (by rw [habs]; exact_mod_cast nx) (by rw [habs]; exact_mod_cast bx1)
+      (by rw [habs]; exact_mod_cast ny) (by rw [habs]; exact_mod_cast by1)
+      (by show binary32.emin ≤ ex - ((12 : ℕ) : ℤ); omega) (by show binary32.emin ≤ ey - ((12 : ℕ) : ℤ); omega) hund
+      _ _ (valQ_int sx mx ex) (valQ_int sy my ey) hxm hym
+  have := transfer2' mul_dekker_scale_f32 (by rw [hfm]; exact hf) dekkerScaleKinds hk hko lib [x, y] _ (by rw [hfm]; exact hins) env
+    (by rw [hfm]; exact he) (by rw [hfm]; exact hfin) h l ho _ _ hq
+  rw [hfm] at this
+  exact ⟨_, _, this.1, this.2, rfl, by ring⟩
+
 /-- non-vacuity of `dekker_bit_exact_f32`: x = y = 1 + 2^-23 (pattern 0x3f800001) is normal, the run is
 defined and every node is finite -/
 example : decode binary32 0x3f800001 = .fin false (2 ^ 23 + 1) (-23) ∧
